@@ -13,6 +13,7 @@ mod alloc;
 mod sched;
 mod deriv;
 mod families;
+mod qref;
 mod checks;
 
 fn usage() -> ! {
